@@ -10,6 +10,9 @@ use tvmon::rng::Rng;
 use tvmon::rollreg::*;
 use tvmon::wl::*;
 
+/// cap on items taken from a library iterator: a runaway iterator becomes a length violation, not an OOM
+const CAP: usize = 200_000;
+
 fn obs_eq(a: &[Obs], b: &[Obs]) -> Option<usize> {
     if a.len() != b.len() {
         return Some(usize::MAX);
@@ -127,8 +130,8 @@ fn maps_f64(x: &Vec<f64>, y: &Vec<f64>, a: &MapArgs) -> Named {
     add("bfill", catch(|| to_obs_f64(&x.titer().bfill(a.fill).collect::<Vec<_>>())));
     add("fill", catch(|| to_obs_f64(&x.titer().fill(nn(a.fill)).collect::<Vec<_>>())));
     add("vclip", catch(|| to_obs_f64(&x.titer().vclip(nn(a.lo), nn(a.hi)).collect::<Vec<_>>())));
-    add("vshift", catch(|| to_obs_f64(&x.titer().vshift(a.n, a.fill).collect::<Vec<_>>())));
-    add("vpct_change", catch(|| to_obs_f64(&x.vpct_change(a.n).collect::<Vec<_>>())));
+    add("vshift", catch(|| to_obs_f64(&x.titer().vshift(a.n, a.fill).take(CAP).collect::<Vec<_>>())));
+    add("vpct_change", catch(|| to_obs_f64(&x.vpct_change(a.n).take(CAP).collect::<Vec<_>>())));
     add("vrank", catch(|| to_obs_f64(&x.vrank::<Vec<f64>, f64>(false, false))));
     add("vrank_pct_rev", catch(|| to_obs_f64(&x.vrank::<Vec<f64>, f64>(true, true))));
     add("vpartition", catch(|| to_obs_f64(&x.vpartition(a.k, true, false).collect::<Vec<_>>())));
@@ -170,8 +173,8 @@ fn maps_opt(x: &Vec<Option<f64>>, y: &Vec<Option<f64>>, a: &MapArgs) -> Named {
     add("bfill", catch(|| to_obs_opt(&x.titer().bfill(ff).collect::<Vec<_>>())));
     add("fill", catch(|| to_obs_opt(&x.titer().fill(a.fill).collect::<Vec<_>>())));
     add("vclip", catch(|| to_obs_opt(&x.titer().vclip(a.lo, a.hi).collect::<Vec<_>>())));
-    add("vshift", catch(|| to_obs_opt(&x.titer().vshift(a.n, ff).collect::<Vec<_>>())));
-    add("vpct_change", catch(|| to_obs_f64(&x.vpct_change(a.n).collect::<Vec<_>>())));
+    add("vshift", catch(|| to_obs_opt(&x.titer().vshift(a.n, ff).take(CAP).collect::<Vec<_>>())));
+    add("vpct_change", catch(|| to_obs_f64(&x.vpct_change(a.n).take(CAP).collect::<Vec<_>>())));
     add("vrank", catch(|| to_obs_opt(&x.vrank::<Vec<Option<f64>>, Option<f64>>(false, false))));
     add("vrank_pct_rev", catch(|| to_obs_opt(&x.vrank::<Vec<Option<f64>>, Option<f64>>(true, true))));
     add("vpartition", catch(|| to_obs_opt(&x.vpartition(a.k, true, false).collect::<Vec<_>>())));
